@@ -6,6 +6,8 @@ import ast
 
 from gv import rules
 from gv.astutil import compare_parts
+from gv.astutil import as_update
+from gv.astutil import const_value
 from gv.astutil import dotted
 from gv.astutil import kwarg
 from gv.astutil import last_attr
@@ -15,6 +17,8 @@ from gv.astutil import stmts_of
 from gv.astutil import unparse
 from gv.astutil import walk_body
 from gv.cfg import cfg_of
+from gv.props.shared import literal_facts
+from gv.props.shared import unfolded
 from gv.props import describe
 from gv.props.shared import branch_conditions
 from gv.report import Ctx
@@ -350,7 +354,119 @@ def check_flip(ctx: Ctx) -> None:
     ctx.ob("16.4-normalised-bounds", con, ok, "the upper bounds compared with the (normalised) point must be normalised iff the approximator works on normalised inputs", node=wh[0], stmt="upper bounds normalised iff inputs are")
 
 
+DA = "utils/derivatives/derivatives_approx.py"
+
+
+def check_bound_sources(ctx: Ctx) -> None:
+    """16.4: the forward point is compared with the UPPER bounds and the backward point with the LOWER bounds, both
+    normalised iff the approximator works on normalised inputs (decided on the unfolded comparison, under each value
+    of the option)."""
+    for rel, clsn in ((FD, "FirstOrderFD"), (CD, "CenteredDifferences")):
+        f = ctx.index.method(rel, clsn, "_generate_perturbations")
+        con = cname(rel, clsn, "_generate_perturbations")
+        wh = [s_ for s_ in stmts_of(f) if isinstance(s_, ast.Assign) and isinstance(s_.value, ast.Call) and last_attr(s_.value) == "where" and len(s_.value.args) == 3 and isinstance(s_.value.args[0], ast.Compare)]
+        ctx.need(wh, f"{clsn}._generate_perturbations: no where(<comparison>, ...) found")
+        for w in wh:
+            for fact in (True, False):
+                alts = unfolded(f, w, {"self._normalize": fact}, get=lambda st: st.value.args[0])
+                ok = bool(alts)
+                why = ""
+                for a_ in alts or []:
+                    if not isinstance(a_, ast.Compare) or len(a_.ops) != 1:
+                        ok = False
+                        continue
+                    l_, op, r_ = a_.left, type(a_.ops[0]), a_.comparators[0]
+                    # which side holds the bound, and whether the moving point is the larger one
+                    sides = {"l": norm_stmt(l_, 400), "r": norm_stmt(r_, 400)}
+                    bside = "r" if "get_upper_bounds" in sides["r"] or "get_lower_bounds" in sides["r"] else "l"
+                    btxt = sides[bside]
+                    point = r_ if bside == "l" else l_
+                    moves = [n_.op for n_ in ast.walk(point) if isinstance(n_, ast.BinOp) and isinstance(n_.op, (ast.Add, ast.Sub)) and "step" in norm_stmt(n_.right)]
+                    if len(moves) != 1:
+                        continue  # not a comparison of a perturbed point (rule 16.4-flip decides on its form)
+                    point_greater = isinstance(moves[0], ast.Add)
+                    want, other = ("get_upper_bounds", "get_lower_bounds") if point_greater else ("get_lower_bounds", "get_upper_bounds")
+                    if want not in btxt or other in btxt:
+                        ok = False
+                        why = f"the {'forward' if point_greater else 'backward'} point is compared with `{btxt[:80]}`"
+                    if ("normalize_vect" in btxt) != fact:
+                        ok = False
+                        why = why or f"with normalize={fact} the bound is `{btxt[:80]}`"
+                ctx.ob("16.4-bound-sources", con, ok, f"the forward point must be compared with the upper bounds and the backward point with the lower bounds, normalised iff the inputs are ({why}): compared with the wrong bound the side is dropped at interior points (one-sided scheme, first-order error) or kept beyond the bound", node=w, stmt=f"normalize={fact}: `{norm_stmt(w.value.args[0], 50)}` against its own bound")
+    ctx.floor("16.4-bound-sources", 6)
+
+
+def check_variable_indices(ctx: Ctx) -> None:
+    """16.5: check_jacobian(indices=...) numbers the components of the flat input vector: the offset of a variable is
+    the sum of the FULL sizes of the variables before it, whatever subset of their components is selected."""
+    from gv.cursor import check_cursor_loops
+
+    f = ctx.index.method(DA, "DisciplineJacApprox", "_compute_variable_indices")
+    con = cname(DA, "DisciplineJacApprox", "_compute_variable_indices")
+    check_cursor_loops(ctx, "16.5-indices", con, f, min_loops=1, force={"variable_position"})
+    loops = [s_ for s_ in stmts_of(f) if isinstance(s_, ast.For)]
+    ctx.need(loops, "_compute_variable_indices: loop over the variables not found")
+    lp = loops[0]
+    incs = [s_ for s_ in ast.walk(lp) if as_update(s_) and isinstance(as_update(s_)[1], ast.Add) and isinstance(as_update(s_)[0], ast.Name)]
+    ctx.need(len(incs) == 1, "_compute_variable_indices: the advance of the offset was not found")
+    sizes_par = f.args.args[-1].arg if f.args.args else "variable_sizes"
+    alts = unfolded(f, as_update(incs[0])[2]) or [as_update(incs[0])[2]]
+    ok = all(isinstance(a_, ast.Subscript) and dotted(a_.value) == sizes_par and dotted(a_.slice) == dotted(lp.target) for a_ in alts)
+    ctx.ob("16.5-indices", con, ok, f"the offset must advance by the full size of the variable (`{sizes_par}[{dotted(lp.target)}]`), not by the number of selected components: the components of the following variables are otherwise numbered too low and other components are differentiated", node=incs[0], stmt="offset advances by the full size of the variable")
+
+
+def check_zero_tolerance(ctx: Ctx) -> None:
+    """16.6: the perturbed points of a discipline-level approximation are evaluated with a cache tolerance of zero
+    (a tolerance larger than the step would serve the nominal outputs for every perturbed point: zero Jacobian)."""
+    f = ctx.index.method(DA, "DisciplineJacApprox", "__set_zero_cache_tol")
+    con = cname(DA, "DisciplineJacApprox", "__set_zero_cache_tol")
+    cfg = cfg_of(f)
+    ys = [n_ for n_ in walk_body(f) if isinstance(n_, ast.Yield)]
+    sets = [s_ for s_ in stmts_of(f) if isinstance(s_, ast.Assign) and (dotted(s_.targets[0]) or "").endswith("cache.tolerance")]
+    zero = [s_ for s_ in sets if const_value(s_.value, None) in (0, 0.0) and not isinstance(const_value(s_.value, None), bool)]
+    restore = [s_ for s_ in sets if s_ not in zero]
+    ok = bool(zero)
+    y_cache = []
+    for y in ys:
+        yn = cfg.node_of(y)
+        facts = literal_facts(cfg, yn)
+        if any("cache" in k_ and ((" is not None" in k_ and v_) or (" is None" in k_ and not v_)) for k_, v_ in facts.items()):
+            y_cache.append(yn)
+    ok = ok and bool(y_cache) and all(any(cfg.dominates(cfg.node_of(z), yn) for z in zero) for yn in y_cache)
+    ctx.ob("16.6-zero-tolerance", con, ok, "with a cache, the tolerance must be set to 0 before the approximation runs (before the yield)", node=(zero or ys or [f])[0], stmt="tolerance = 0 before the body")
+    ok = bool(restore) and all(cfg.escape_path(yn, {cfg.node_of(r_) for r_ in restore}) is None for yn in y_cache) and all(dotted(r_.value) for r_ in restore)
+    saved = {dotted(r_.value) for r_ in restore}
+    ok = ok and all(any(isinstance(s_, ast.Assign) and dotted(s_.targets[0]) == v_ and (dotted(s_.value) or "").endswith("cache.tolerance") and any(cfg.dominates(cfg.node_of(s_), cfg.node_of(z)) for z in zero) for s_ in stmts_of(f)) for v_ in saved)
+    ctx.ob("16.6-zero-tolerance", con, ok, "the user's tolerance, read before it is zeroed, must be restored after the approximation", node=(restore or [f])[0], stmt="tolerance restored after the body")
+    # the evaluations at perturbed points happen inside the context: every call of an approximator routine that
+    # evaluates the discipline (the callee is resolved through locals: `g = self.approximator.f_gradient; g(x)`)
+    from gv.dataflow import SymValues
+
+    cls = ctx.index.cls(DA, "DisciplineJacApprox")
+    n_calls = 0
+    for mname, routines in (("compute_approx_jac", {"f_gradient"}), ("auto_set_step", {"compute_optimal_step"})):
+        g = cls.methods[mname]
+        sv = SymValues(g)
+        calls = []
+        for c in walk_body(g):
+            if isinstance(c, ast.Call) and sv.cfg.has(c):
+                for t in sv.texts(c.func):
+                    if any(t == f"self.approximator.{r_}" for r_ in routines):
+                        calls.append(c)
+                        break
+        ctx.need(calls, f"{mname}: no call of self.approximator.{sorted(routines)[0]} found")
+        withs = [w for w in ast.walk(g) if isinstance(w, ast.With) and any(isinstance(it.context_expr, ast.Call) and last_attr(it.context_expr) in ("__set_zero_cache_tol", "_DisciplineJacApprox__set_zero_cache_tol") for it in w.items)]
+        for c in calls:
+            n_calls += 1
+            ok = any(any(sub is c for sub in ast.walk(w)) for w in withs)
+            ctx.ob("16.6-zero-tolerance", cname(DA, "DisciplineJacApprox", mname), ok, f"{sorted(routines)[0]} evaluates the discipline at perturbed points: it must be CALLED under the zero-tolerance context (fetching the bound method inside the context and calling it after does nothing)", node=c, stmt=f"{sorted(routines)[0]} called under __set_zero_cache_tol")
+    ctx.floor("16.6-zero-tolerance", 4)
+
+
 def run(ctx: Ctx) -> None:
+    check_bound_sources(ctx)
+    check_variable_indices(ctx)
+    check_zero_tolerance(ctx)
     check_kinds(ctx)
     check_twins(ctx)
     check_placement(ctx)
@@ -360,6 +476,10 @@ def run(ctx: Ctx) -> None:
 
 # ---------------------------------------------------------------------------
 WITNESSES = [
+    {"name": "optimal-step-called-after-the-context", "file": DA, "old": "        with self.__set_zero_cache_tol():\n            steps_opt, errors = self.approximator.compute_optimal_step(\n                x_vect, numerical_error=numerical_error\n            )\n", "new": "        with self.__set_zero_cache_tol():\n            compute_opt_step = self.approximator.compute_optimal_step\n\n        steps_opt, errors = compute_opt_step(x_vect, numerical_error=numerical_error)\n", "expect": "16.6"},
+    {"name": "centred-upper-bounds-from-lower", "file": CD, "old": "            upper_bounds = normalize_vect(upper_bounds)", "new": "            upper_bounds = normalize_vect(lower_bounds)", "expect": "16.4"},
+    {"name": "indices-offset-by-selected-count", "file": DA, "old": "            variable_position += variable_size\n", "new": "            variable_position += len(indices_sequence[-1])\n", "expect": "16.5"},
+    {"name": "zero-tolerance-not-set", "file": DA, "old": "            self.discipline.cache.tolerance = 0.0\n", "new": "", "expect": "16.6"},
     {"name": "flip-only-on-the-bound", "file": FD, "old": "            input_perturbations[input_indices, range(n_indices)] + step\n            > upper_bounds[input_indices],", "new": "            input_perturbations[input_indices, range(n_indices)]\n            >= upper_bounds[input_indices],", "expect": "16.4"},
     {"name": "centered-forward-side-only-on-the-bound", "file": CD, "old": "            input_perturbations[input_indices, range(n_indices)] + step\n            > upper_bounds[input_indices],", "new": "            input_perturbations[input_indices, range(n_indices)]\n            >= upper_bounds[input_indices],", "expect": "16.4"},
     {"name": "centered-bounds-of-all-components", "file": CD, "old": "            < lower_bounds[input_indices],", "new": "            < lower_bounds,", "expect": "16."},
